@@ -126,6 +126,7 @@ func FromModelStream(modelCh <-chan []model.Directive) (<-chan *Builder, func(co
 	return cpr.FanIn(func(ctx context.Context, ch chan<- *Builder) error {
 		j := New()
 		err := cpr.ForEach(ctx, modelCh, func(directives []model.Directive) error {
+			verifArrival(directives)
 			for _, d := range directives {
 				if err := j.Add(d); err != nil {
 					return err
@@ -151,6 +152,7 @@ func (j *Journal) Process(ps ...*Processor) error {
 			fs = append(fs, proc.Process)
 		}
 	}
+	fs = verifWrap(fs)
 	_, err := cpr.Seq(context.Background(), j.Days, fs...)
 	return err
 }
